@@ -136,9 +136,28 @@ impl Prop for Framing {
         let cancel = self.cancel;
         // set when the connection kept failing after the script's transient failures were used up
         let gave_up: Rc<RefCell<bool>> = Rc::new(RefCell::new(false));
+        // Neighbours (seeded runs only): one run in five hundred shares the process with a live
+        // connection whose receive buffer holds tens of MiB; one in eight shares the thread with a
+        // second scripted connection whose traffic is interleaved with this one's.
+        let seeded = mode_desc.0.starts_with("seeded");
+        let (want_ballast, want_second) = if seeded {
+            let mut w = world.borrow_mut();
+            let b = if w.tape.draw(512) == 511 { Some((64usize << 20) + 1 + w.tape.draw(30 << 20)) } else { None };
+            (b, w.tape.draw(8) == 7)
+        } else {
+            (None, false)
+        };
+        let mut second: Option<Rc<RefCell<crate::neighbours::SecondResult>>> = None;
         {
+            let _ballast = want_ballast.map(|n| {
+                world.borrow_mut().stat("runs_next_to_a_connection_holding_tens_of_MiB");
+                crate::neighbours::ballast(n)
+            });
             let mut conn = Connection::new(W::socket(world, rd, wr));
             let mut ex = Exec::new();
+            if want_second {
+                second = Some(crate::neighbours::spawn_second_connection(&mut ex, world));
+            }
             let results2 = results.clone();
             let used2 = used.clone();
             let kinds = script.kinds.clone();
@@ -238,6 +257,11 @@ impl Prop for Framing {
         }
 
         // ---- oracle
+        if let Some(sr) = &second {
+            if let Some(f) = crate::neighbours::judge_second(id, &sr.borrow()) {
+                return Err(f);
+            }
+        }
         let got = results.borrow();
         let used = used.borrow();
         let expected: Vec<Res> = (0..n).map(|i| match used.get(i) {
